@@ -53,7 +53,7 @@ def run(c, replay):
         ovs = c.harness_overlay("src", FILES, name="ov_scaled.json", replace={"src/constants.go": patched})
         bs = c.build_test("src", ovs, out="h_scaled.test")
     c.bounds = dict(pool="12 lines: ab, 'a b', xab, 'ab x', ' ab', a/b, x/ab, abab, b, aXb, ab (duplicate), 'a  b y'",
-                    queries="'' (empty), ab (plain), !x (negation only), 'a b' (two terms), 'ab b' (second match nested in the first)",
+                    queries="'' (empty), ab (plain), !x (negation only), 'a b' (two terms), 'ab x' (on aXb the second match is nested strictly inside the first)",
                     tiebreak_lists="all 86 legal lists: <= 3 distinct criteria of length, chunk, pathname, begin, end (index only last)",
                     short_list_len=c.pick(4, 5), partitions=[1, 2, 3, 32],
                     long_sizes=[0, 1, 99, 100, 101, 199, 200, 201, 250, 3201, 6400],
